@@ -12,7 +12,7 @@ RULE = ("Hypothesis draws a sampler setup (3D catalogue/generated crystal with o
         "sites incl. non-diagonal and negative-determinant ones, cluster cutoff shell and order, values from a pool of distinct "
         "irrational-offset floats, optional constant term, optional jump network with KRA values and TS clusters, optional vacancy "
         "with vacancy clusters) and a history of ops (start with an occupation, single/multi-site update, trial) whose site indices are "
-        "taken modulo the current occupied/unoccupied/free site lists. After every op the history sampler's E, occupied/unoccupied sets, "
+        "taken modulo the current occupied/unoccupied/free site lists; spawn = a compiled sampler is built from the history sampler's parameters (MonteCarloSampler_param) and updated on its own, which must leave the history sampler untouched. After every op the history sampler's E, occupied/unoccupied sets, "
         "occupation and clustercount are compared with (a) a second sampler instance started from scratch on a copy of the model "
         "occupation kept by the harness and (b) an independent recount of unoccupied sites per interaction; every trial and every update "
         "is compared with E(after)-E(before) of freshly started samplers. Thorough/quick also walk ALL occupations of catalogue "
@@ -36,7 +36,7 @@ _idx = st.integers(0, 63)
 
 @st.composite
 def op_strategy(draw, nsites):
-    kind = draw(st.sampled_from(["update", "update", "update", "trial", "trial", "start"]))
+    kind = draw(st.sampled_from(["update", "update", "update", "trial", "trial", "start"] + ["update", "trial", "spawn"]))
     if kind == "start":
         return {"op": "start", "bits": [draw(st.integers(0, 1)) for _ in range(nsites)]}
     mode = draw(st.sampled_from(["proper", "proper", "proper", "any"]))
@@ -189,6 +189,16 @@ def check_history(case):
             if op["op"] == "trial":
                 ntrial += 1
                 # a trial must not change anything
+            elif op["op"] == "spawn":
+                # a second (compiled) sampler is created from this one's parameters and updated on its own; the history
+                # sampler has seen no update, so its state must still be that of a fresh sampler on the unchanged occupation
+                from onsager import cluster
+                un = [i for i in free if occ[i] == 0]
+                oc = [i for i in free if occ[i] == 1]
+                if un and oc:
+                    J = cluster.MonteCarloSampler_jit(**cluster.MonteCarloSampler_param(H))
+                    J.update(int(un[sum(op["on"]) % len(un)]), int(oc[sum(op["off"]) % len(oc)]))   # the compiled sampler swaps one pair
+                    classes.append("spawned_compiled_sampler")
             else:
                 nupdate += 1
                 EH0 = H.E()
